@@ -274,9 +274,16 @@ def check_property_file(pid: str):
 
 
 def load_known():
+    d = {"known": [], "fixed": []}
     if KNOWN.exists():
-        return json.loads(KNOWN.read_text())
-    return {"known": [], "fixed": []}
+        d = json.loads(KNOWN.read_text())
+    # fragments written while a property is being developed (merged into the one file later)
+    frag = VERIF / "known_findings.d"
+    if frag.exists():
+        for p in sorted(frag.glob("*.json")):
+            e = json.loads(p.read_text())
+            d["known"] += e if isinstance(e, list) else e.get("known", [])
+    return d
 
 
 class Ctx:
